@@ -384,6 +384,45 @@ func ruleG3(p *Prog, r *Report) {
 			z, isConst := constInt(mk.Size)
 			r.Decide(!(isConst && z == 0), R, cons, p.InstrPos(mk), "job/result channel is buffered with the job count: neither side can block", "job/result channel is unbuffered: the launcher queues all jobs before draining, or workers block after an early return")
 		}
+		// (f) a worker sends one result per job without looking at the done signal, and the launcher stops draining
+		// on the first error: the result channel must hold every result, i.e. have the capacity of the job channel
+		var jobCap, resCap *ssa.MakeChan
+		if callee := p.goCallee(g); callee != nil {
+			sig := callee.Signature
+			for i, a := range g.Call.Args {
+				if i >= sig.Params().Len() {
+					continue
+				}
+				ch, ok := sig.Params().At(i).Type().Underlying().(*types.Chan)
+				if !ok {
+					continue
+				}
+				if st, isStruct := ch.Elem().Underlying().(*types.Struct); isStruct && st.NumFields() == 0 {
+					continue
+				}
+				mk, ok := canon(a).(*ssa.MakeChan)
+				if !ok {
+					continue
+				}
+				switch ch.Dir() {
+				case types.RecvOnly:
+					jobCap = mk
+				case types.SendOnly:
+					resCap = mk
+				}
+			}
+			if jobCap != nil && resCap != nil {
+				// sends that cannot block forever: inside a select together with another case
+				guarded := true
+				eachInstrDeep(callee, func(_ *ssa.Function, y ssa.Instruction) {
+					if _, ok := y.(*ssa.Send); ok {
+						guarded = false
+					}
+				})
+				same := sameCapacity(jobCap.Size, resCap.Size)
+				r.Decide(same || guarded, R, "result-capacity:"+p.Name(launcher), p.InstrPos(resCap), "the result channel holds one result per queued job: workers never block on it after the launcher stops draining", "the result channel is smaller than the job queue while workers send unconditionally: after an early error return the launcher waits for workers that are blocked sending results (deadlock)")
+			}
+		}
 	}
 	r.Floor(R, "worker launch sites", 3, n)
 }
@@ -402,6 +441,39 @@ func sameChan(a, b ssa.Value) bool {
 			if st := singleStoreTo(fv); st != nil && canon(st) == cb {
 				return true
 			}
+		}
+	}
+	return false
+}
+
+// goCallee resolves the function started by a go statement (static function or local closure).
+func (p *Prog) goCallee(g *ssa.Go) *ssa.Function {
+	if f := staticCallee(g); f != nil {
+		return f
+	}
+	if f := closureOf(g.Call.Value); f != nil {
+		return f
+	}
+	return nil
+}
+
+// sameCapacity: two channel capacities are the same value (identical SSA value, equal constants, or len of the same collection).
+func sameCapacity(a, b ssa.Value) bool {
+	if sameValue(a, b) {
+		return true
+	}
+	ka, ok1 := constInt(a)
+	kb, ok2 := constInt(b)
+	if ok1 && ok2 {
+		return ka == kb
+	}
+	ca, ok1 := canonConv(a).(*ssa.Call)
+	cb, ok2 := canonConv(b).(*ssa.Call)
+	if ok1 && ok2 {
+		ba, ok1 := ca.Call.Value.(*ssa.Builtin)
+		bb, ok2 := cb.Call.Value.(*ssa.Builtin)
+		if ok1 && ok2 && ba.Name() == "len" && bb.Name() == "len" {
+			return sameValue(ca.Call.Args[0], cb.Call.Args[0])
 		}
 	}
 	return false
